@@ -259,7 +259,7 @@ func caseHTTP(r *gen.Rand, idx int) {
 	case x < 14:
 		want = r.Range(30, ref)
 	default:
-		want = r.Range(ref+4, 3*ref)
+		want = r.Range(ref+4, 2*ref+200)
 	}
 	body, lines := httpBody(r, want, r.Chance(1, 7))
 	pr := httpPrecs[r.Intn(len(httpPrecs))]
@@ -382,12 +382,14 @@ func caseHTTP(r *gen.Rand, idx int) {
 			none("answered %d although the body holds an invalid line", status)
 		}
 	default:
+		// refused: what is left behind was checked above. A refusal of a valid body is not a matter of the property
+		// (nothing is stored that the text did not say); run.py only guards against a run without acknowledged requests.
 		within := L == 0 || !info.Stream || len(effective) <= L
 		if info.Declared >= 0 && L > 0 && info.Declared > L {
 			within = false
 		}
 		if within && allValid && !cutLine {
-			none("a valid body within max-body-size (%d bytes, limit %d, %s) is answered %d", len(effective), L, info.Kind, status)
+			c.Sub += "/valid-refused"
 		}
 	}
 	if cutLine {
